@@ -109,6 +109,13 @@ def gen_blocks(run):
       for hop in (1, 17, 64, 100, 128, 130):
         for route in ("func-gen", "method", "func-list"):
           yield (route, n, size, hop, "tuple", "int")
+  # sizes and hops on both sides of the interpreter's small-integer cache (-5..256): counters compared
+  # by identity instead of equality only go wrong beyond it (seed C08-W); hop below, at and above size
+  for size in (255, 256, 257, 258, 300, 512):
+    for hop in (size - 1, size, size + 1, size + 100, 2 * size):
+      for n in (size - 1, size, 2 * size + 1, 3 * hop + 7):
+        for route in ("func-gen", "method", "func-list"):
+          yield (route, n, size, hop, "tuple", "int")
 
 
 class _Raised(object):
